@@ -652,8 +652,9 @@ type LedgerProbe struct {
 	IsAuth                     bool
 }
 
-var ledgerFilters = []string{"a", "a/b", "a/+", "a/#", "+/b", "a/b/c", "#", "b"}
-var ledgerTopics = []string{"a", "a/b", "a/b/c", "b", "b/c", "a/c"}
+// (levels may be empty: "/a/b" has an empty first level and is a different topic from "a/b")
+var ledgerFilters = []string{"a", "a/b", "a/+", "a/#", "+/b", "a/b/c", "#", "b", "/a/b", "/#", "a/b/"}
+var ledgerTopics = []string{"a", "a/b", "a/b/c", "b", "b/c", "a/c", "/a/b", "/a", "a/b/"}
 
 func genC18Case(t *Tape) *UnitCase {
 	lc := &LedgerCase{Users: map[string]LedgerUser{}}
